@@ -129,84 +129,6 @@ def run(ctx):
             parts = [(c, list(range(a, b))) for c, a, b in zip(chunks, bounds[:-1], bounds[1:])]
         else:
             parts = [(bnp.open(path, buffer_type=bt).read(), list(range(n)))]
-        # model state: list of (source record index, {column: new text})
-        base_t, base_idx = parts[r.randrange(len(parts))]
-        t = base_t
-        state = [(i, {}) for i in base_idx]
-        program = []
-        replaced_any = False
-        earlier = [(t, list(state), False, [])]          # tables that stay alive while the program continues (parent objects)
-        for _ in range(r.randint(1, maxsteps)):
-            if program and (earlier[-1][3] != program):
-                earlier.append((t, list(state), replaced_any, list(program)))
-            kind = r.random()
-            if kind < 0.15 and state:
-                # a field is parsed (of the table or of a slice of it, which shares the table's buffers) and the value thrown away:
-                # reading a column must not change what a later write emits
-                import dataclasses
-                target = t if r.random() < 0.5 else t[:max(1, len(state) // 2)]
-                try:
-                    f = r.choice([fl.name for fl in dataclasses.fields(target)])
-                    v = getattr(target, f)
-                    if dataclasses.is_dataclass(v):
-                        sub = r.choice([fl.name for fl in dataclasses.fields(v)])
-                        v = getattr(v, sub)
-                        f = "%s.%s" % (f, sub)
-                    len(v)
-                    ctx.count("access_steps")
-                except Exception as e:
-                    if not originates_in_library(e):
-                        raise
-                    ctx.observe("field-access-raised(C02's business):%s" % type(e).__name__)
-                    return
-                program.append(["access", f, "whole" if target is t else "slice"])
-                continue
-            if kind < 0.6 or not state:
-                sel = gen_selection(r, len(state))
-                t = apply_sel_real(t, sel)
-                state = apply_sel_model(state, sel)
-                program.append(list(sel))
-            elif kind < 0.8:
-                # concatenate with a selection of the same chunk or of another chunk
-                ot, oidx = parts[r.randrange(len(parts))]
-                sel = gen_selection(r, len(oidx))
-                other = apply_sel_real(ot, sel)
-                ostate = apply_sel_model([(i, {}) for i in oidx], sel)
-                if replaced_any:
-                    continue        # concatenating tables with different replaced columns is C05's territory; keep C04 to its statement
-                if r.random() < 0.5:
-                    t, state = np.concatenate([t, other]), state + ostate
-                    program.append(["concat-right", list(sel)])
-                else:
-                    t, state = np.concatenate([other, t]), ostate + state
-                    program.append(["concat-left", list(sel)])
-            else:
-                fields = SOURCES[fname]
-                if not fields or not state:
-                    continue
-                names = r.sample(list(fields), r.randint(1, min(2, len(fields))))
-                kw = {}
-                for f in names:
-                    col, k = fields[f]
-                    if k in ("int", "pos"):
-                        vals = [r.choice([0, 7, 10, 999, 12345, r.randint(0, 10 ** 9)]) for _ in state]
-                        kw[f] = np.array(vals, dtype=int)
-                        texts = [str(v + 1) if k == "pos" else str(v) for v in vals]
-                    else:
-                        vals = ["new%d" % i for i in range(len(state))]
-                        from bionumpy.string_array import as_string_array
-                        kw[f] = as_string_array(vals)       # the column's own array type
-                        texts = vals
-                    state = [(i, {**ov, col: tx}) for (i, ov), tx in zip(state, texts)]
-                try:
-                    t = bnp.replace(t, **kw)
-                except Exception as e:
-                    if not originates_in_library(e):
-                        raise
-                    ctx.observe("replace-raised:%s" % type(e).__name__)
-                    return
-                replaced_any = True
-                program.append(["replace", names])
         def judge_write(t, state, replaced_any, program, role):
             # expected bytes
             def norm(raw):
@@ -283,7 +205,95 @@ def run(ctx):
             ctx.check("write:" + fname, ok, "%s%s/bytes-differ-from-selected-source-records%s" % (fname, tag, classify(got, expected, header, eol, state)),
                       "written bytes differ from the selected source records: got %r expected %r" % (got[-220:], expected[-220:]), dict(wit, got=got[-900:], expected=expected[-900:]), nontriv)
 
-
+        # model state: list of (source record index, {column: new text})
+        base_t, base_idx = parts[r.randrange(len(parts))]
+        t = base_t
+        state = [(i, {}) for i in base_idx]
+        program = []
+        replaced_any = False
+        earlier = [(t, list(state), False, [])]          # tables that stay alive while the program continues (parent objects)
+        for _ in range(r.randint(1, maxsteps)):
+            if program and (earlier[-1][3] != program):
+                earlier.append((t, list(state), replaced_any, list(program)))
+            if program and program[-1] != ["write"] and r.random() < 0.12:
+                # what the program holds now (or a slice of it) is written out and judged; the program goes on with the same objects
+                if r.random() < 0.6 or len(state) < 2:
+                    judge_write(t, list(state), replaced_any, list(program) + ["(intermediate write)"], "intermediate")
+                else:
+                    a_ = r.randint(0, len(state) - 1)
+                    b_ = r.randint(a_ + 1, len(state))
+                    judge_write(t[a_:b_], list(state)[a_:b_], replaced_any, list(program) + [["slice", a_, b_, None], "(intermediate write of a slice)"], "intermediate")
+                program.append(["write"])
+                ctx.count("intermediate_writes")
+                continue
+            kind = r.random()
+            if kind < 0.15 and state:
+                # a field is parsed (of the table or of a slice of it, which shares the table's buffers) and the value thrown away:
+                # reading a column must not change what a later write emits
+                import dataclasses
+                target = t if r.random() < 0.5 else t[:max(1, len(state) // 2)]
+                try:
+                    f = r.choice([fl.name for fl in dataclasses.fields(target)])
+                    v = getattr(target, f)
+                    if dataclasses.is_dataclass(v):
+                        sub = r.choice([fl.name for fl in dataclasses.fields(v)])
+                        v = getattr(v, sub)
+                        f = "%s.%s" % (f, sub)
+                    len(v)
+                    ctx.count("access_steps")
+                except Exception as e:
+                    if not originates_in_library(e):
+                        raise
+                    ctx.observe("field-access-raised(C02's business):%s" % type(e).__name__)
+                    return
+                program.append(["access", f, "whole" if target is t else "slice"])
+                continue
+            if kind < 0.6 or not state:
+                sel = gen_selection(r, len(state))
+                t = apply_sel_real(t, sel)
+                state = apply_sel_model(state, sel)
+                program.append(list(sel))
+            elif kind < 0.8:
+                # concatenate with a selection of the same chunk or of another chunk
+                ot, oidx = parts[r.randrange(len(parts))]
+                sel = gen_selection(r, len(oidx))
+                other = apply_sel_real(ot, sel)
+                ostate = apply_sel_model([(i, {}) for i in oidx], sel)
+                if replaced_any:
+                    continue        # concatenating tables with different replaced columns is C05's territory; keep C04 to its statement
+                if r.random() < 0.5:
+                    t, state = np.concatenate([t, other]), state + ostate
+                    program.append(["concat-right", list(sel)])
+                else:
+                    t, state = np.concatenate([other, t]), ostate + state
+                    program.append(["concat-left", list(sel)])
+            else:
+                fields = SOURCES[fname]
+                if not fields or not state:
+                    continue
+                names = r.sample(list(fields), r.randint(1, min(2, len(fields))))
+                kw = {}
+                for f in names:
+                    col, k = fields[f]
+                    if k in ("int", "pos"):
+                        vals = [r.choice([0, 7, 10, 999, 12345, r.randint(0, 10 ** 9)]) for _ in state]
+                        kw[f] = np.array(vals, dtype=int)
+                        texts = [str(v + 1) if k == "pos" else str(v) for v in vals]
+                    else:
+                        vals = ["new%d" % i for i in range(len(state))]
+                        from bionumpy.string_array import as_string_array
+                        kw[f] = as_string_array(vals)       # the column's own array type
+                        texts = vals
+                    state = [(i, {**ov, col: tx}) for (i, ov), tx in zip(state, texts)]
+                try:
+                    t = bnp.replace(t, **kw)
+                except Exception as e:
+                    if not originates_in_library(e):
+                        raise
+                    ctx.observe("replace-raised:%s" % type(e).__name__)
+                    return
+                replaced_any = True
+                program.append(["replace", names])
         judge_write(t, state, replaced_any, program, "final")
         # tables created on the way (parents of later selections / originals of later replacements) must still write THEIR records
         for (pt, pstate, prepl, pprog) in r.sample(earlier, min(2, len(earlier))):
@@ -326,8 +336,35 @@ def run(ctx):
             parts = [(c, list(range(a, b))) for c, a, b in zip(chunks, bounds[:-1], bounds[1:])]
         else:
             parts = [(bnp.open(path).read(), list(range(n)))]
-        t, state = parts[r.randrange(len(parts))]
         program = []
+        def write_and_judge(t, state, when):
+            wit = {"format": "bam", "seed": case["seed"], "n": n, "chunked": case["chunked"], "program": list(program), "written": when, "expected_names": [recs[i]["name"][:12] for i in state][:10]}
+            nontriv = (data, repr(program)) if len(state) >= 2 else None
+            concatenated = any(isinstance(p[0], str) and p[0].startswith("concat") for p in program)
+            tag = "bam%s%s" % ("+concat" if concatenated else "", "+after-an-earlier-write" if any(p == ["write"] for p in (program if when == "final" else program[:-1])) else "")
+            out = ctx.path("c04o.bam")
+            try:
+                with bnp.open(out, "w") as f:
+                    f.write(t)
+                written = open(out, "rb").read()
+            except Exception as e:
+                if not originates_in_library(e):
+                    raise
+                et, site = exc_site(e)
+                ctx.judged("write:bam", nontriv)
+                ctx.violation("%s/write-raised:%s@%s" % (tag, et, site), "writing a selection of BAM records raised %s: %s" % (et, str(e)[:100]), wit)
+                return False
+            try:
+                refs2, recs2 = R2.decode_bam(written)
+                got = [x["raw"] for x in recs2]
+            except Exception as e:
+                ctx.check("write:bam", False, "%s/output-is-not-a-bam" % tag, "the written file is not decodable as BAM: %s" % str(e)[:80], wit, nontriv)
+                return False
+            exp = [R2.encode_record(recs[i]) for i in state]
+            return ctx.check("write:bam", got == exp and (refs2 == refs or not state), "%s/bytes-differ-from-selected-source-records" % tag,
+                             "BAM written from the program decodes to %d records (%d expected) / other bytes" % (len(got), len(exp)), dict(wit, got_names=[x["name"][:12] for x in recs2][:10]), nontriv)
+
+        t, state = parts[r.randrange(len(parts))]
         for _ in range(r.randint(1, maxsteps)):
             if r.random() < 0.65 or not state:
                 sel = gen_selection(r, len(state))
@@ -353,30 +390,13 @@ def run(ctx):
                         raise
                     ctx.observe("bam-field-access-raised(C16's business):%s" % type(e).__name__)
                     return
-        wit = {"format": "bam", "seed": case["seed"], "n": n, "chunked": case["chunked"], "program": program, "expected_names": [recs[i]["name"][:12] for i in state][:10]}
-        nontriv = (data, repr(program)) if len(state) >= 2 else None
-        concatenated = any(isinstance(p[0], str) and p[0].startswith("concat") for p in program)
-        out = ctx.path("c04o.bam")
-        try:
-            with bnp.open(out, "w") as f:
-                f.write(t)
-            written = open(out, "rb").read()
-        except Exception as e:
-            if not originates_in_library(e):
-                raise
-            et, site = exc_site(e)
-            ctx.judged("write:bam", nontriv)
-            ctx.violation("bam%s/write-raised:%s@%s" % ("+concat" if concatenated else "", et, site), "writing a selection of BAM records raised %s: %s" % (et, str(e)[:100]), wit)
-            return
-        try:
-            refs2, recs2 = R2.decode_bam(written)
-            got = [x["raw"] for x in recs2]
-        except Exception as e:
-            ctx.check("write:bam", False, "bam%s/output-is-not-a-bam" % ("+concat" if concatenated else ""), "the written file is not decodable as BAM: %s" % str(e)[:80], wit, nontriv)
-            return
-        exp = [R2.encode_record(recs[i]) for i in state]
-        ctx.check("write:bam", got == exp and (refs2 == refs or not state), "bam%s/bytes-differ-from-selected-source-records" % ("+concat" if concatenated else ""),
-                  "BAM written from the program decodes to %d records (%d expected) / other bytes" % (len(got), len(exp)), dict(wit, got_names=[x["name"][:12] for x in recs2][:10]), nontriv)
+            if r.random() < 0.25:
+                # what the program holds now is written out (and judged), and the program goes on with the same object
+                program.append(["write"])
+                ctx.count("bam_intermediate_writes")
+                if write_and_judge(t, state, "intermediate") is False:
+                    return
+        write_and_judge(t, state, "final")
 
     for i in range(ctx.share(ctx.pick(640, 8000))):
         ctx.run_case(bam_program, {"seed": rng.randrange(2 ** 40), "chunked": rng.random() < 0.4})
